@@ -26,6 +26,14 @@ CHECKS = {
    technique="bounded exhaustive enumeration of malformed inputs (all short strings over a byte-class alphabet, all header field values, all single-byte substitutions) and of every truncation point of a generated file family, executed on the real reader with panic/termination/result-shape/allocation/prefix oracles",
    text="Every byte string of length <=5 (thorough 6) over a 16-byte alphabet as track body, every string of length <=4 over alphabet+chunk-magic letters as whole file and after a valid magic; all 65536 values of each header field; declared x actual track counts; explicit huge declared lengths in every length-carrying position; all 255 substitutions at every offset of ~45 representative valid files plus alphabet pairs on the five smallest; every truncation point of every file of a generated family (depth 1 in every shape, depth 2 in the plain file). Oracles: the call returns within a read budget, no panic, exactly one of value/error, allocation <= 64 KiB + 256 x len(input), accepted prefixes are event-for-event prefixes with the original header.",
    note="Trusted: tolerant reference decoder for the prefix oracle; runtime/metrics allocation counter (suspicious cases re-measured exactly). The random / coverage-guided part of the property's quantifier is sampling and is replaced by these exhaustive bounded spaces."),
+ "C09": dict(level="fault_enumeration", engine="enum", design="4/C09",
+   technique="exhaustive enumeration of read fragmentations (every single cut, every pair, triples on small files, 1/2/3 bytes per call, data+EOF) of every file of a family, differential against reading from memory",
+   text="For ~190 valid files (every event token alone and in context, shaped files with alien chunks, payloads up to 200 bytes) and every truncation of the ten smallest: every single split point, every pair of split points (quick: files up to 120 bytes; thorough: all), every triple (files up to 36/60 bytes), one, two and three bytes per Read, each with and without the last fragment arriving together with io.EOF. The result (format, time format, tracks deep-equal, or kind of failure none/ErrMissing/other) must equal that of reading the same bytes from a bytes.Reader.",
+   note="Trusted: fragmenting reader in harness/faultio (returns at least one byte or an error per call). The baseline is the library's own in-memory result (differential oracle); what that result must be is C02/C05's business."),
+ "C10": dict(level="fault_enumeration", engine="enum", design="4/C10",
+   technique="exhaustive fault injection at every byte offset of the output stream (short write+error, error per call) and of the input stream (sticky non-EOF error) for a family of files",
+   text="For ~100 API-built values (every message class, 1-3 tracks, running status on/off, metric/SMPTE): the destination accepts exactly k bytes and then fails, for every k in 0..size+1, in two modes; WriteTo must return an error iff the fault fired, else nil with the exact size and bytes. On the written bytes and on generated byte-level files (running status, alien chunks, packets): a sticky non-EOF error from every offset on; whenever the error was handed to the library, ReadFrom must return an error; when it never fired the content must be intact.",
+   note="Trusted: fault writer/reader in harness/faultio. Errors are injected alone (never together with data) and are sticky, as the quantifier says."),
 }
 
 NOT_YET = "check not built yet in this session (see DESIGN.md section 4 for the planned exploration)"
